@@ -29,6 +29,8 @@ ASSUME_TEMPORAL = [
     "anybody is contacted or routed by its NotAfter; nothing else is accepted",
     "temporal client, pacing: one caller at a time, calls spaced further apart (1000 s of virtual time) than the 128 s cap, so a "
     "shard's multiplier and pauses are a function of the answers that shard gave (concurrent callers and pending back-off are C13's)",
+    "temporal client, NAMED CLAUSE FanOut: GetAcceptedRoots has a request outstanding at every shard before any of them is "
+    "answered (the completion orders presuppose it)",
     "temporal client, roots: the per-shard requests are held at gates inside the RoundTripper and released one at a time "
     "(testing/synctest.Wait between releases), so the completion order is the specification's; requests still outstanding when the "
     "context ends all fail with the context's error; the ORDER of the returned roots is not asserted, nor WHICH failed shard's error "
@@ -91,13 +93,19 @@ def temporal(ctx):
     ctx.notes["temporal_cases"] = {"routing": len(route), "server_classes": len(classes), "sequences": len(seqs),
                                    "roots_schedules": len(roots)}
     # 4. replay into the real client.TemporalLogClient under virtual time
+    parts = []
     for name, items in (("c12t-route", route), ("c12t-classes", classes), ("c12t-sequences", seqs)):
-        path = ctx.write_ndjson(name + ".ndjson", items)
-        ctx.go_test("vt/c12t", run="TestSubmit$", env={"VERIF_TCASES": path, "VERIF_TNAME": name}, toolchain="go1.26",
-                    timeout=2400, name=name)
-    path = ctx.write_ndjson("c12t-roots.ndjson", roots)
-    ctx.go_test("vt/c12t", run="TestRoots$", env={"VERIF_RCASES": path}, toolchain="go1.26", race=True, timeout=2400,
-                name="c12t-roots")
+        parts.append("%s=%s" % (name, ctx.write_ndjson(name + ".ndjson", items)))
+    rpath = ctx.write_ndjson("c12t-roots.ndjson", roots)
+    if ctx.thorough():
+        ctx.go_test("vt/c12t", run="TestSubmit$", env={"VERIF_TCASES": ";".join(parts)}, toolchain="go1.26", timeout=2400,
+                    name="c12t-submit")
+        # the fan-out is the concurrent part: under the race detector
+        ctx.go_test("vt/c12t", run="TestRoots$", env={"VERIF_RCASES": rpath}, toolchain="go1.26", race=True, timeout=2400,
+                    name="c12t-roots")
+    else:
+        ctx.go_test("vt/c12t", run="TestSubmit$|TestRoots$", env={"VERIF_TCASES": ";".join(parts), "VERIF_RCASES": rpath},
+                    toolchain="go1.26", timeout=2400, name="c12t")
     return {"temporal_routing_cases": len(route), "temporal_server_class_cases": len(classes),
             "temporal_roots_schedules": len(roots)}
 
